@@ -49,6 +49,7 @@ class Unit:
         self.source = None
         self.rules = []
         self.parts = []     # ('text', str) | ('extract', Extract)
+        self.verus_flags = []
         self.props = []
 
 def _parse_rule(rest, lineno):
@@ -76,7 +77,19 @@ def parse(path):
         if sec is not None:
             cur.sections.append((sec, ''.join(buf)))
         sec, buf = None, []
-    for lineno, line in enumerate(open(path), 1):
+    def expand(pth, depth=0):
+        out = []
+        for ln in open(pth):
+            st = ln.strip()
+            if st.startswith('//@include ') and st.split()[1].endswith('.vinc'):
+                # a .vinc file may itself contain directives: spliced in before parsing
+                if depth > 4:
+                    raise ScanError('include nesting too deep')
+                out += expand(os.path.join(os.path.dirname(pth), st.split()[1]), depth + 1)
+            else:
+                out.append(ln)
+        return out
+    for lineno, line in enumerate(expand(path), 1):
         s = line.strip()
         if not s.startswith('//@'):
             if cur is not None and sec is None and s:
@@ -91,6 +104,8 @@ def parse(path):
                 unit.source = d.split()[1]
             elif d.startswith('rule '):
                 unit.rules.append(_parse_rule(d, lineno))
+            elif d.startswith('verus-flag '):
+                unit.verus_flags.append(d.split()[1])
             elif d.startswith('contract-of '):
                 # //@contract-of UNIT FN [impl=`..`]: the verified contract of FN in another unit, as an assumed
                 # (external_body) stub here; the other unit must be run by the same check
